@@ -11,10 +11,36 @@ PROPS = {
             "message-level WriteAnyWithDesc/ReadAnyWithDesc (lists, maps, nested messages) is covered under C07/C10's model, not here",
         ],
         "trusted_base": ["google.golang.org/protobuf/encoding/protowire as the reference implementation"],
+        "level_text": "Machine-checked proof (Coq) that the varint/zig-zag/fixed/bytes codecs generated from the Go source equal a recursive reference for all values and all byte strings, and that the descriptor-driven scalar reader inverts the writer for every kind; tied to the code by regeneration (go2coq) on every run plus differential runs of the real functions, protobuf-go and the extracted definitions.",
+        "level_note": "Trusted: Coq kernel, go2coq translator (validated each run by executing generated definitions against the real functions), extraction + OCaml driver, Go harness, protobuf-go protowire as reference. Message-level reader/writer is covered under C07/C10.",
+        "technique": "Coq proof over go2coq-translated definitions + differential correspondence",
     },
     "C01": {
         "level": "proof",
         "n": {"quick": 3000, "thorough": 150000},
+        "gen_needs": [],
+        "assumptions": [
+            "hand-written model (ThriftWire/ThriftGeneric) tied to thrift/generic by differential runs only",
+            "I08 map keys are compared through an unsigned byte as the code does (harness uses keys 0..127 for int-key paths)",
+            "Node.Index() reports an out-of-range index as a non-not-found error; accepted as an error result",
+        ],
+        "trusted_base": [],
+        "level_text": "Coq proofs that the independent decoder inverts the encoder and that skip advances by exactly the encoded length for every well-formed value (all shapes, sizes, depths), plus byte-level get_by_path and AST-level lookup models evaluated side by side; the implementation's Node/Value GetByPath, Field/Index/GetByStr/GetByInt/GetByRaw and Children are compared with the model on generated values for type, exact byte span, not-found and error class.",
+    },
+    "C04": {
+        "level": "proof",
+        "n": {"quick": 4000, "thorough": 200000},
+        "gen_needs": [],
+        "assumptions": [
+            "insertion position is left open by the property: the model inserts at the front as the code does, back insertion is classified as drift",
+            "inserted sub values have the type the container declares (API contract); raw map keys are encodings of the key type",
+        ],
+        "trusted_base": [],
+        "level_text": "Edit histories (set / unset, Node and Value variants) are replayed on the decoded AST by a Gallina model; after every step the implementation's bytes must equal the encoding of the model state, 'existed' and error flags must match, failed operations and forks must leave buffers unchanged. Theorems: decoder round trip / well-formedness preservation of the model edits.",
+    },
+    "C04": {
+        "level": "proof",
+        "n": {"quick": 4000, "thorough": 200000},
         "gen_needs": [],
         "assumptions": [],
         "trusted_base": [],
